@@ -169,6 +169,20 @@ class P(Prop):
                         f["mass"][t0] = Fraction(0)
                 out.append({"stream": "mix", "spec": spec, "series": series, "n": nst, "fuels": fuels,
                             "cls": rng.choice(CLASSES)})
+            elif rng.random() < 0.45:
+                # a whole plant (gensets on several fuels, dual-fuel sets, fuel-cell systems of 1-3 modules) under either
+                # specification: the GHG figure of every fuel consumer and of the plant against mass x pathway factor
+                import plantgen as pg
+                import sysrun
+                c = sysrun.gen_electric_case(rng, n=rng.randint(1, 4), max_swb=2)
+                for d in c["plant"]["comps"]:
+                    if pg.kind_of(d["cls"]) == "Source" and d["cls"] not in ("genset", "genset_df", "genset_rect"):
+                        d["cls"] = "fuelcell"
+                        d["fc"] = {"modules": rng.choice([1, 2, 3]), "fuel": rng.choice(["HYDROGEN", "HYDROGEN", "NATURAL_GAS"]),
+                                   "origin": rng.choice(["FOSSIL", "RENEWABLE_NON_BIO"])}
+                    if pg.kind_of(d["cls"]) in ("Storage", "PtiPto"):
+                        d["cls"] = "battery"
+                out.append({"stream": "plant", "spec": rng.choice(["IMO", "FUEL_EU_MARITIME", "FUEL_EU_MARITIME"]), "plant": c["plant"], "inp": c["inp"]})
             elif rng.random() < 0.3:
                 # a plant's result charged to a fuel tank that may not cover it (feems.simulation_interface.EnergySource)
                 out.append({"stream": "tank", "spec": rng.choice(["IMO", "FUEL_EU_MARITIME"]), "fuel": rng.choice(["DIESEL", "NATURAL_GAS"]),
@@ -196,6 +210,8 @@ class P(Prop):
         st = case["stream"]
         if st == "tank":
             return self.run_tank(case)
+        if st == "plant":
+            return self.run_plant(case)
         with np.errstate(all="ignore"):
             if st == "factors":
                 res = {}
@@ -260,6 +276,66 @@ class P(Prop):
             ents.append(f"({fid}, {core.coq_q(f['mass'][t])})")
         return core.coq_list(ents)
 
+    def run_plant(self, case):
+        import plantgen as pg
+        from feems.components_model.node import get_fuel_emission_energy_balance_for_component
+        from feems.components_model.utility import IntegrationMethod
+        from feems.exceptions import InputError
+        from feems.fuel import FuelConsumerClassFuelEUMaritime as C, FuelSpecifiedBy
+        spec = FuelSpecifiedBy[case["spec"]]
+        trip = lambda g: [float(np.sum(g.tank_to_wake_kg_or_gco2eq_per_gfuel)), float(np.sum(g.well_to_tank_kg_or_gco2eq_per_gfuel))]
+        fl = lambda fc: [[f.fuel_type.value, f.origin.value, f.fuel_specified_by.name, float(np.sum(f.mass_or_mass_fraction))] for f in fc.fuels]
+        with np.errstate(all="ignore"):
+            try:
+                sysm, objs = pg.build_electric_system(case["plant"])
+                pg.apply_electric_inputs(sysm, objs, case["plant"], case["inp"])
+                sysm.do_power_balance_calculation()
+                res = sysm.get_fuel_energy_consumption_running_time(fuel_specified_by=spec)
+            except (InputError, ValueError, StopIteration) as e:
+                return {"rejected": type(e).__name__}
+            comps = []
+            dt = np.array([float(x) for x in case["inp"]["dt"]])
+            for d, o in zip(case["plant"]["comps"], objs):
+                if pg.kind_of(d["cls"]) != "Source":
+                    continue
+                try:
+                    r = get_fuel_emission_energy_balance_for_component(component=o, time_interval_s=dt, integration_method=IntegrationMethod.sum_with_time,
+                                                                       fuel_specified_by=spec)
+                except (ValueError, StopIteration) as e:
+                    return {"rejected": type(e).__name__}
+                cls = C.FUEL_CELL.value if d["cls"] == "fuelcell" else o.aux_engine.fuel_consumer_type_fuel_eu_maritime.value
+                comps.append({"name": d["name"], "cls": cls, "fuels": fl(r.multi_fuel_consumption_total_kg), "co2": trip(r.co2_emission_total_kg)})
+            return {"comps": comps, "total_fuels": fl(res.multi_fuel_consumption_total_kg), "total_co2": trip(res.co2_emission_total_kg)}
+
+    def oracle_plant(self, case, obs):
+        import math
+        if "rejected" in obs:
+            return None
+        sums = [0.0, 0.0]
+        for c in obs["comps"]:
+            want = [0.0, 0.0]
+            for ty, origin, spec, m in c["fuels"]:
+                if spec != case["spec"]:
+                    return f"{c['name']}: fuel {ty}/{origin} is reported as specified by {spec}, the calculation was asked for {case['spec']}"
+                if m == 0:
+                    continue
+                fa = self.raw_factor(case["spec"], ty, origin, c["cls"])
+                if fa is None or any(math.isnan(x) for x in fa):
+                    return None          # a row without factors (F-C08-1) or no row at all: nothing to compare with
+                want[0] += m * fa[0]
+                want[1] += m * fa[1]
+            for name, g, w in zip(("tank-to-wake", "well-to-tank"), c["co2"], want):
+                if not abs(g - w) <= 1e-9 * max(1.0, abs(w)):
+                    return f"{c['name']}: {name} {g} kg but the sum over its fuels of mass x pathway factor is {w} kg"
+            sums = [sums[0] + want[0], sums[1] + want[1]]
+        for ty, origin, spec, m in obs["total_fuels"]:
+            if spec != case["spec"]:
+                return f"plant total: fuel {ty}/{origin} is reported as specified by {spec}, asked for {case['spec']}"
+        for name, g, w in zip(("tank-to-wake", "well-to-tank"), obs["total_co2"], sums):
+            if not abs(g - w) <= 1e-9 * max(1.0, abs(w)):
+                return f"plant: {name} {g} kg but the sum over all fuel consumers of mass x pathway factor is {w} kg"
+        return None
+
     def run_tank(self, case):
         import plantgen as pg
         from feems.components_model.utility import IntegrationMethod
@@ -287,7 +363,7 @@ class P(Prop):
 
     def term(self, case, obs):
         st = case["stream"]
-        if st == "tank":
+        if st in ("tank", "plant"):
             return "true"
         spec = "IMO" if case.get("spec") == "IMO" else "EU"
         if st == "factors":
@@ -335,6 +411,8 @@ class P(Prop):
         return ttw, num(rows[0]["CO2_WtT"]) * num(rows[0]["LCV"])
 
     def oracle(self, case, obs):
+        if case["stream"] == "plant":
+            return self.oracle_plant(case, obs)
         if case["stream"] == "tank":
             if obs["burned"] <= 0:
                 return None
@@ -396,6 +474,16 @@ class P(Prop):
 
     def tags(self, case, obs):
         t = ["stream=" + case["stream"]]
+        if case["stream"] == "plant":
+            t.append("spec=" + case["spec"])
+            if "rejected" in obs:
+                t.append("plant-rejected:" + obs["rejected"])
+            for d in case["plant"]["comps"]:
+                if d["cls"] == "fuelcell":
+                    t.append(f"fuel-cell-system-modules={d['fc']['modules']}")
+                if d["cls"] == "genset_df":
+                    t.append("dual-fuel-set")
+            return sorted(set(t))
         if case["stream"] == "mix":
             t += ["spec=" + case["spec"], "series" if case["series"] else "scalar", f"nfuels={len(case['fuels'])}", f"class={case['cls']}"]
             if any("user" in f for f in case["fuels"]):
